@@ -65,6 +65,31 @@ CHECKS = {
    text="For each std decoder/hasher (quick 13 packages, thorough all 30) the C freshly generated from the working tree is compiled with ASan+UBSan (and plain with allocator counters) and explored: all 256 byte values to depth 2 (3) then a per-format reduced alphabet to depth 6 (8-10) with (object, unread source, destination, status) hash deduplication; from every prefix state of every seed (repository test files <= 4 KiB and reference-encoder output) every single-byte deviation followed by the rest of the seed and a short reduced-alphabet continuation, and every truncation; destination capacity {ample, 0, 1, 7}, work buffer {min, max}, closed {at end, never}; image/token decoders through their canonical call sequence. Oracle per call: sanitizer silence, exact-size source/destination allocations, buffer contract, status class, never 'internal error', no '$short read' on a closed source, no '$short write' into an empty ample destination that wrote nothing, '$short workbuf' answered by growing, disabled after error, zero allocator calls, the call returns.",
    note="Bounded as stated (alphabets, depths, one deviation per seed); time-sliced per package and seed, caps are listed in the evidence and the run reports exhaustive:false when a slice ends early. Default quirks only; non-interface public methods are not reachable; images above 1 MiB of pixels are refused by the harness.",
    ref="DESIGN.md section 4 C03, 10.1"),
+ "C01": dict(cat="model_checking", engine="progen+interp",
+   technique="bounded-exhaustive enumeration of Wuffs programs from small grammars, each run through the real Tokenize/Parse/Check; every accepted program is executed by a reference interpreter over the checker-annotated AST for all inputs of its declared domains and every receiver state reachable by <= 2 prior public calls (explicit BFS with state hashing), with a safety monitor on every evaluated expression",
+   text="Families seeds, arith, index, facts, axioms, loops, refine, ptr, calls, coro, io (quick ~9e4 programs generated / ~3e4 accepted; thorough ~6e5 / ~2e5): for each accepted program the interpreter explores all argument tuples (all values of small domains, a boundary alphabet for wide ones) from every reachable receiver state and checks on every step: index/slice inside the live object, no overflow of non-modular operations, conversions, stores, arguments and results inside the declared (refined) type and the element type of the object actually written, divisor non-zero, shift in range, no null dereference, no recursion, unchecked I/O built-ins have their bytes/room; and that every value in statement position lies inside the range the checker cached for it (MBounds). Rejections of near-miss programs are counted per family.",
+   note="The program grammars, not arbitrary Wuffs (std/ is covered at the C level by C03); no iterate family; coroutine suspension inside io_limit/io_bind is outside the interpreter's subset; per-program execution caps are reported. Known findings: the checker's aliasing holes (facts about a[j] surviving a store to a[i], through slices/pointers of the same memory, across impure calls, stale pure-call facts, refined element types ignored for shared referents), recorded by signature.",
+   ref="DESIGN.md section 4 C01, section 3 E1/E2"),
+ "C02": dict(cat="model_checking", engine="progen+interp",
+   technique="the same exhaustive program x input x receiver-state exploration as C01, with a fact monitor: at every program point reached the fact list the real checker holds there (read from check.Error.Facts after inserting `assert false` at that point) is evaluated in the concrete state, for every input and every suspend/resume pattern; plus exhaustive small-integer evaluation of every axiom",
+   text="(i) every axiom of lang/check/axioms.md, parsed independently, evaluated for all integer assignments in [-6,6]^k (thorough [-10,10]); (ii) the axioms family: every instantiation of every axiom (including a repeated pattern variable bound to two different expressions) through the real checker and, if accepted, executed; (iii) for every accepted program of all families and every program point, every fact, assert, pre/inv/post condition the checker holds there is evaluated in every concrete state that reaches it; coroutines under every enumerated suspend/resume plan (source cuts, destination room schedules, different arguments on resumption, compacted buffers, an intervening impure call). Violations are abstracted to a (created|stale, statement shape, fact shape) signature so that thousands of violating programs collapse to one signature per root cause.",
+   note="Same scope limits as C01. Known findings: the aliasing family (see C01).",
+   ref="DESIGN.md section 4 C02, section 3 E1/E2"),
+ "C11": dict(cat="exploration", engine="libmc",
+   technique="bounded-exhaustive enumeration of source texts (all token strings up to length 4/5 over a 40-token alphabet in 8 contexts, every 1-deviation token/line/tree mutation of every declaration of every .wuffs seed, all short byte strings, nesting/size probes) run through Tokenize/Parse/Render/Check in journaling worker processes, plus an enumerated family of accepted programs through wuffs-c gen and gcc",
+   text="Workers (re-exec'd sub-processes with an mmap journal naming the current input) run every enumerated text through token.Tokenize, parse.Parse, render.Render and check.Check under recover(); an abnormal worker exit (stack overflow, fatal error) or an evaluation exceeding 60 s of CPU time names its input. ~2400 (thorough ~10700) generated programs covering every method signature shape x 31 body fragments go through the freshly built wuffs-c gen and gcc -fsyntax-only with bisection. Oracle: a value or an ordinary error from every stage, termination, gcc accepts the C of every accepted program.",
+   note="Quick subsamples the mutation space (stride 12). The wuffsfmt binary is covered by C12. Known findings: methods on structs that are not declared with '?' generate C gcc rejects; the parser has no nesting-depth limit (stack overflow beyond 2e6 nested parentheses, thorough only).",
+   ref="DESIGN.md section 4 C11"),
+ "C09": dict(cat="exploration", engine="cserve",
+   technique="exhaustive product of (input, initialisation / prior-memory configuration, buffer prefill, CPU-path build) on the generated std C through the C state server: the baseline run fixes a call script, the same script is replayed under every configuration and every per-call observation compared",
+   text="Inputs: valid files for every std package (repository test data, Go reference-encoder output, hand-built small images), every prefix length for hashers, and every single-byte deviation {00, FF, ^b, b+1} of the short seeds. Configurations: initialise default / ALREADY_ZEROED over zeros / LEAVE_INTERNAL_BUFFERS_UNINITIALIZED over 00, A5, FF and over the object bytes left by a complete, suspended or failed decode of other seeds (re-initialised default or LEAVE), destination / pixel / work-buffer memory beyond wi prefilled 00 or EE, continuing in a clone, and two builds of the C freshly generated from the working tree: CPU-specific code enabled, and -DWUFFS_CONFIG__AVOID_CPU_ARCH. Oracle: status, consumed and written counts, bytes up to wi, returned values, image/frame configs and pixels identical across the product. The evidence lists the choose sites, host CPU flags and the CPU-specific function pointers actually found installed in objects (vacuity guards fire if the two builds ran the same code).",
+   note="JPEG SIMD-vs-portable comparison only on encoder-produced files (the documented exception). ARM variants never execute on this host. One chunking shape plus a two-piece shape.",
+   ref="DESIGN.md section 4 C09"),
+ "C10": dict(cat="exploration", engine="cserve",
+   technique="exhaustive enumeration of every section, symbol and relocation of the objects compiled from the freshly generated C (gcc and clang, monolithic and per module, with and without WUFFS_CONFIG__STATIC_FUNCTIONS) against an expectation derived independently from the Wuffs sources; and every pure method called in every state of byte-by-byte walks of every std struct with memcmp of object and buffers (C state server)",
+   text="Static half: the release C generated from the working tree is compiled without sanitizers at -O2 (thorough: more compilers/flags), every ELF section, symbol and relocation is read (debug/elf, cross-checked with size/nm/objdump): writable sections (.data/.bss/.tdata/.tbss and sub-sections) must be empty, undefined symbols within {memcpy, memmove, memset, memcmp/bcmp} plus calloc/free referenced only from alloc helpers, exported functions of each module exactly the pub methods / initialize / alloc / sizeof / upcast helpers computed from lang/parse over std/<pkg>/*.wuffs (base: the MAYBE_STATIC prototypes of the public headers). Dynamic half: every std struct walked byte by byte over valid seeds, failing deviations, 7-byte pieces, suspended and uninitialised states; after every call every pure method is invoked and the object and all buffers must be bit-for-bit unchanged.",
+   note="The static verdict holds for gcc 12 / clang-14, x86-64 ELF and the listed flags; it is an exhaustive inspection of a finite artefact rather than of behaviours. Generated test programs are not compiled here, only std. Pure methods outside the base interfaces (zlib.dictionary_id) are not reachable.",
+   ref="DESIGN.md section 4 C10"),
 }
 
 NOT_YET = "check not built yet in this session (design in DESIGN.md section 4); no claim made"
@@ -104,6 +129,8 @@ def main():
              "kind_free_text": "cooperative scheduler + go/ast rewriter of lib/rac/conc_reader.go (go build -overlay); stateless DFS over schedules with preemption/deviation bounds and happens-before state pruning"},
             {"name": "cserve", "path": "csrc/ internal/cserve/", "serves_properties": sorted(k for k, v in CHECKS.items() if v["engine"] == "cserve") + ["C17"],
              "kind_free_text": "C state server compiled against C freshly generated from the working tree (ASan+UBSan / plain with allocator counters / AVOID_CPU_ARCH variants); holds cloneable object slots and executes single calls with the buffer contract checked in C; the exploration (BFS/DFS, visited sets, chunk scripts) is in Go"},
+            {"name": "progen+interp", "path": "internal/progen/ internal/interp/", "serves_properties": sorted(k for k, v in CHECKS.items() if v["engine"] == "progen+interp"),
+             "kind_free_text": "E1 bounded-exhaustive Wuffs program generator (tries over statement alphabets, one family per checker mechanism) + E2 reference interpreter over the AST annotated by the real check.Check, with safety / MBounds / fact monitors, explicit BFS over receiver states and coroutine suspend-resume plans"},
             {"name": "detmc", "path": "checks/c20/", "serves_properties": ["C20"],
              "kind_free_text": "determinism explorer: go/ast map-range rewriter (overlay twins with forced iteration orders), tmpfs directory-order permutations, environment variation, byte comparison of generated output"},
         ],
